@@ -174,7 +174,7 @@ Unprintable(v) == \/ v.t \in {"hash", "forloop"}
                   \/ (v.t = "arr" /\ \E i \in DOMAIN v.v : Unprintable(v.v[i]))
 
 RECURSIVE Exotic(_)
-Exotic(v) == \/ v.t \in {"float", "big"}
+Exotic(v) == \/ v.t \in {"float", "big", "odrop"}
              \/ (v.t = "arr" /\ \E i \in DOMAIN v.v : Exotic(v.v[i]))
              \/ (v.t = "hash" /\ \E i \in DOMAIN v.v : Exotic(v.v[i][2]))
 
